@@ -487,6 +487,36 @@ def caller_dict_shard(kind):
     return tally
 
 
+def empty_dims_shard():
+    """tensors with a zero-size dimension: only a tensor with no elements AND a single dimension is exempt from the constraints
+    (documented); an empty tensor with two or more dimensions that is reported valid satisfies every constraint, and an
+    incompatible one is refused by the constructor / reported invalid"""
+    tally = Tally()
+    for shape in ((0, 3), (2, 0), (0, 0), (1, 0, 2)):
+        for strict in (True, False):
+            for cons in [dict(c) for n in (1, 2) for c in itertools.combinations([(0, 0), (0, 2), (1, 0), (1, 3), (-1, 0), (-1, 2), (-1, 3)], n) if len({d for d, _ in c}) == n]:
+                tally.add("transitions")
+                case = {"config": {"part": "empty multi-dimensional tensor", "shape": list(shape), "strict": strict}, "constraints": {str(k): v for k, v in cons.items()}}
+                mod = inferno.Module()
+                ok_ref = holds(shape, cons, strict)
+                try:
+                    ShapedTensor.create(mod, "x", torch.zeros(shape), constraints=dict(cons), strict=strict)
+                except Exception:
+                    if ok_ref and not strict:
+                        tally.violation("empty-dims:compatible-refused", case, f"a tensor of shape {shape} satisfying {cons} was refused by the constructor")
+                    continue
+                t = mod.x
+                if t.ignored:
+                    tally.violation("empty-dims:treated-as-uninitialised", case, f"a tensor of shape {shape} (more than one dimension) is treated as uninitialised storage")
+                    continue
+                if t.valid and not ok_ref:
+                    tally.violation("empty-dims:valid-but-violated", case, f"shape {shape} violates {cons} but the tensor was accepted and reports valid=True", False, True)
+                tally.mark("nontrivial", ("empty-dims", shape, strict, tuple(sorted(cons.items()))))
+    tally.add("states", 1)
+    tally.sample({"part": "empty multi-dimensional tensors"})
+    return tally
+
+
 def run(rep):
     quick = rep.tier == "quick"
     jobs = []
@@ -515,6 +545,7 @@ def run(rep):
             jobs.append((constraint_shard, (kind, strict, (2, 3), (0, 1, -1, -2), (None, 1, 2, 3), cdepth - 1)))
     for kind in ("shaped", "record"):
         jobs.append((caller_dict_shard, (kind,)))
+    jobs.append((empty_dims_shard, ()))
     tally = run_shards(jobs, seed=rep.seed)
     rep.tally.merge(tally)
     c = tally.counts
